@@ -317,7 +317,9 @@ def run_real(verb, table_text, tree_text, stage=5):
     except RuntimeError as ex:
         if "Optimizer does not converge" in str(ex):
             return "ERR nonconverge"
-        raise
+        return f"EXC RuntimeError {str(ex)[:80]}"
+    except Exception as ex:  # noqa: BLE001  a driver that breaks on stub classes is a disagreement, not a crash
+        return f"EXC {type(ex).__name__} {str(ex)[:80]}"
     finally:
         sys.setrecursionlimit(old)
         _State.budget = 10**9
@@ -389,6 +391,12 @@ FIXED_TABLES = [
     ("pipeline_deps", "u:0.*^1.*($9)?ndle1>1.1(0.1);tu:0.1^1.1($9)>2.0(0.0);l:2.0($0)>2.1($0);u:0.0^2.1($9)?nreq2>0.1"),
     ("nonlinear_pattern", "d:1.0($0,$0)>0.0($0)"),  # fires only for a shared operand
     ("cache_visible", "u:0.0^1.0($9)?any>1.1(0.0);u:0.0^2.0($8,$9)?nreq2>2.1($8,$9)"),
+    # a shared sub-expression is simplified once: the second visit must come from the `simplified` cache
+    # (a recomputation would see one more bandaid entry and decide differently)
+    ("cache_hit_shared_nreq1", "u:0.0^1.0($9)?nreq1>1.1(0.0)"),
+    ("cache_hit_shared_nreq2", "u:0.*^1.*($9)?nreq2>2.0(0.0)"),
+    ("cache_hit_shared_ndle", "u:0.*^1.*($9)?nreq1>1.1(0.1);u:0.*^2.*($9)?ndle1>2.1(0.1)"),
+    ("cache_hit_binary", "u:0.0^1.0($8,$9)?nreq2>2.0($8)"),
 ]
 
 
@@ -483,6 +491,17 @@ def all_trees(max_nodes, lits=(0,)):
                 yield label(s, lab)
 
 
+def shared_trees(max_sub):
+    """trees in which one sub-expression has two consumers: c(S, S) and c(S, d(S))"""
+    out = []
+    for sub in all_trees(max_sub):
+        for c in range(3):
+            out.append(f"{c}.0({sub},{sub})")
+            for d in range(3):
+                out.append(f"{c}.0({sub},{d}.0({sub}))")
+    return out
+
+
 def random_tree(rng, n, lits=(0, 1)):
     s = rng.choice(shapes(n))
     return label(s, [(rng.randrange(3), rng.choice(lits)) for _ in range(n)])
@@ -514,12 +533,13 @@ def t2_cases(ctx):
     small = list(all_trees(3 if ctx.quick else 4))  # exhaustive: 66 / 390 trees
     mid = list(all_trees(5)) if not ctx.quick else None
     cases = []
+    shared = shared_trees(2 if ctx.quick else 3)
     for ti, tab in enumerate(tables):
-        trees = list(small)
+        trees = list(small) + shared
         if ctx.quick:
             trees += [random_tree(rng, rng.choice([4, 4, 5, 6, 6]), lits=(0, 1) if ti % 2 else (0,)) for _ in range(70)]
         else:
-            trees = list(mid) + [random_tree(rng, 6) for _ in range(1500)]
+            trees = list(mid) + shared + [random_tree(rng, 6) for _ in range(1500)]
             if ti < len(FIXED_TABLES):
                 trees += [t for t in all_trees(6) if rng.random() < 0.25]
         for tree in trees:
